@@ -201,7 +201,11 @@ def rand_zone(r, idx):
 SPECIAL_FOOTERS = [b"AAA5BBB,M3.2.0,J338/11:30", b"AAA5BBB,J338/10:30,M12.5.0",      # a change within seconds of time_point::max()
                    b"AAA5BBB,J338/11,M12.5.0", b"AAA5BBB,M3.2.0,J338/12",            # a gap / an overlap whose change lies just beyond max()
                    b"AAA5BBB,0/-1,J300/0", b"AAA5BBB,J1/-167,J200", b"AAA-3BBB,M1.1.1/-167,M7.1.0",
-                   b"AAA5BBB,M3.2.0,365/25", b"AAA5BBB,J60,J300", b"AAA5BBB,59,J300/26:30"]
+                   b"AAA5BBB,M3.2.0,365/25", b"AAA5BBB,J60,J300", b"AAA5BBB,59,J300/26:30",
+                   # the order of start and end inside a year depends on the year (dates less than a week apart in forms that drift apart)
+                   b"AAA5BBB,M3.2.0,J70/12", b"AAA5BBB,M3.2.0/2,M3.2.3/14",
+                   # both changes of a rule year fall in the closing hours of the year before
+                   b"AAA5BBB,0/-6,0/-2"]
 
 
 def special_zone(i, footer):
@@ -209,6 +213,12 @@ def special_zone(i, footer):
              (-14400 if b"AAA5" in footer else 14400, True, b"BBB")]
     trans = [(-2000000000, 1), (1000000000, 2), (1010000000, 1)]
     return "gen/special-%d-%s" % (i, footer.decode().replace("/", "_")), tzif(2, trans, types, footer)
+
+
+def fresh_types_zone(i, footer):
+    """The recorded data use types the footer does not (the loader has to create the footer's types itself)."""
+    types = [(-1234, False, b"LMT"), (-18000, False, b"OLD")]
+    return "gen/fresh-%d-%s" % (i, footer.decode().replace("/", "_")), tzif(3, [(-1000000000, 1)], types, footer)
 
 
 def old_zone(i, footer, last):
@@ -229,6 +239,7 @@ def write_corpus(outdir, seed, n):
               old_zone(4, b"EST5EDT,M3.2.0,M11.1.0", -10535032704), old_zone(5, b"EST5EDT,M4.5.0,M10.5.0", -6000000000),
               # data ending in year -201 (last_year_ = 200, not negative) and in year 1200
               old_zone(6, b"EST5EDT,M3.2.0,M11.1.0", -68500000000), old_zone(7, b"EST5EDT,M3.2.0,M11.1.0", -24299000000)]
+    items += [fresh_types_zone(0, b"NEW5NDT,0/-6,0/-2"), fresh_types_zone(1, b"NEW5NDT,M3.2.0,M11.1.0"), fresh_types_zone(2, b"OLD5NDT,J338/11,M12.5.0")]
     items += [rand_zone(r, i) for i in range(n)]
     for name, data in items:
         p = os.path.join(outdir, name.replace("/", "_") + ".tzif")
